@@ -14,13 +14,12 @@
 EXTENDS Lockup, FiniteSetsExt
 
 Trace == ndJsonDeserialize("rewtrace.ndjson")
-ShareEv == {i \in DOMAIN Trace : Trace[i].op = "share"}
-TWorkShares == {Trace[i].id : i \in ShareEv}
-EvOfShare(k) == Trace[CHOOSE i \in ShareEv : Trace[i].id = k]
-TWSMiner == [k \in TWorkShares |-> EvOfShare(k).miner]
-TWSNumber == [k \in TWorkShares |-> EvOfShare(k).number]
-TWSByte == [k \in TWorkShares |-> EvOfShare(k).byte]
-TWSWeight == [k \in TWorkShares |-> 1]
+\* a work share's id encodes its attributes: number * 10000 + miner * 100 + lockup byte * 10 + sequence digit
+TWorkShares == {}
+TWSNumber(k) == k \div 10000
+TWSMiner(k) == (k % 10000) \div 100
+TWSByte(k) == (k % 100) \div 10
+TWSWeight(k) == 1
 TMiners == 1..12
 TQi == {3, 5}
 TNew == {2, 6}
